@@ -307,6 +307,23 @@ def all_txns_in(b):
     return out
 
 
+def random_damage(drnd, good, txg):
+    kindd = drnd.choice(['random', 'zero', 'dots', 'truncate', 'random', 'dots'])
+    pos = drnd.randrange(4, len(good))
+    if drnd.random() < 0.5 and txg:
+        t = drnd.choice(txg)
+        pos = drnd.choice([t['pos'] + drnd.randrange(0, 23), t['pos'] + t['tlen'] + drnd.randrange(0, 8)] +
+                          [r['pos'] + drnd.randrange(0, 42) for r in t['records']])
+        pos = min(pos, len(good) - 1)
+    ln = drnd.choice([1, 1, 2, 8, 23, 50, 400])
+    if kindd == 'truncate':
+        bad = good[:pos]
+    else:
+        fill = {'random': bytes(drnd.randrange(256) for _ in range(ln)), 'zero': b'\0' * ln, 'dots': b'.' * ln}[kindd]
+        bad = good[:pos] + fill[:len(good) - pos] + good[pos + ln:]
+    return kindd, pos, ln, bad
+
+
 def recover_case(sh, s, d, case, only_damage=None):
     import ZODB.fsrecover as R
     from zv import recfs, clock
@@ -367,25 +384,27 @@ def recover_case(sh, s, d, case, only_damage=None):
     txg, endg, _ = parse(good)
     ndam = 0
     hits = 0
-    for k in range(6):
+    for k in range(9):
         drnd = random.Random(s * 31 + k)
         if only_damage is not None and k != only_damage:
             continue
         if len(good) < 40:
             break
-        kindd = drnd.choice(['random', 'zero', 'dots', 'truncate', 'random', 'dots'])
-        pos = drnd.randrange(4, len(good))
-        if drnd.random() < 0.5 and txg:
-            t = drnd.choice(txg)
-            pos = drnd.choice([t['pos'] + drnd.randrange(0, 23), t['pos'] + t['tlen'] + drnd.randrange(0, 8)] +
-                              [r['pos'] + drnd.randrange(0, 42) for r in t['records']])
-            pos = min(pos, len(good) - 1)
-        ln = drnd.choice([1, 1, 2, 8, 23, 50, 400])
-        if kindd == 'truncate':
-            bad = good[:pos]
+        if k >= 6:
+            # targeted: the id of one transaction becomes equal to / lower than its predecessor's, or higher than its successors'
+            if len(txg) < 2:
+                continue
+            from ZODB.utils import p64, u64
+            i = drnd.randrange(1, len(txg))
+            prev = txg[i - 1]['tid']
+            newtid = {6: prev, 7: p64(max(0, u64(prev) - drnd.choice([1, 1 << 20]))), 8: p64(u64(txg[-1]['tid']) + drnd.choice([1, 1 << 33]))}[k]
+            kindd, pos, ln = ('tid-equal', 'tid-lower', 'tid-higher')[k - 6], txg[i]['pos'], 8
+            bad = good[:pos] + newtid + good[pos + 8:]
+            sh.count('targeted_tid_damages')
         else:
-            fill = {'random': bytes(drnd.randrange(256) for _ in range(ln)), 'zero': b'\0' * ln, 'dots': b'.' * ln}[kindd]
-            bad = good[:pos] + fill[:len(good) - pos] + good[pos + ln:]
+            kindd = None
+        if kindd is None:
+            kindd, pos, ln, bad = random_damage(drnd, good, txg)
         if bad == good:
             continue
         inp = os.path.join(d, 'Bad.fs')
